@@ -40,6 +40,14 @@ class Analyzer(cfg.GraphVisitor):
   def __init__(self, graph, include_annotations):
     super(Analyzer, self).__init__(graph)
     self.include_annotations = include_annotations
+    # The header node of a for loop binds the loop targets only when another
+    # iteration follows. Along the edges that leave the loop nothing is bound,
+    # so the targets must not be killed there (e.g. zero-iteration loops).
+    self._for_exit_nodes = {}
+    for stmt, successors in graph.stmt_next.items():
+      if (isinstance(stmt, ast.For) and not stmt.orelse and
+          stmt.iter in graph.index):
+        self._for_exit_nodes[graph.index[stmt.iter]] = frozenset(successors)
 
   def init_state(self, _):
     return set()
@@ -66,9 +74,13 @@ class Analyzer(cfg.GraphVisitor):
       kill = node_scope.modified | node_scope.deleted
 
       live_out = set()
+      live_out_exit = set()
+      exit_nodes = self._for_exit_nodes.get(node, ())
       for n in node.next:
         live_out |= self.in_[n]
-      live_in = gen | (live_out - kill)
+        if n in exit_nodes:
+          live_out_exit |= self.in_[n]
+      live_in = gen | (live_out - kill) | (live_out_exit - node_scope.deleted)
 
       reaching_functions = anno.getanno(
           node.ast_node, anno.Static.DEFINED_FNS_IN)
